@@ -121,7 +121,9 @@ class _InMemoryFeedback(Feedback):
       if not self._trial.measurements:
         raise ValueError(
             f'At least one measurement should be added for trial {self.id}.')
-      self._trial.status = 'COMPLETED'
+      # Only one of the co-workers that race to finish the trial proceeds.
+      if not self._study._try_complete(self._trial):  # pylint: disable=protected-access
+        return
       self._trial.final_measurement = self._trial.measurements[-1]
       self._feedback_fn(self.dna, self._trial)
       self._trial.metadata.update(metadata or {})
@@ -131,7 +133,9 @@ class _InMemoryFeedback(Feedback):
     """Skips current trial without providing feedback to the controller."""
     del reason
     if self._trial.status == 'PENDING':
-      self._trial.status = 'COMPLETED'
+      # Only one of the co-workers that race to finish the trial proceeds.
+      if not self._study._try_complete(self._trial):  # pylint: disable=protected-access
+        return
       self._trial.infeasible = True
       self._trial.final_measurement = Measurement(
           reward=0.0, step=0, elapse_secs=0.0)
@@ -212,6 +216,14 @@ class _InMemoryResult(Result):
       self._num_trials_by_status['PENDING'] += 1
       self._latest_trial_per_group[group_id] = trial
     return trial
+
+  def _try_complete(self, trial: Trial) -> bool:
+    """Atomically moves a PENDING trial to COMPLETED. Returns False if not."""
+    with self._lock:
+      if trial.status != 'PENDING':
+        return False
+      trial.status = 'COMPLETED'
+      return True
 
   def _complete_trial(self, trial: Trial) -> None:
     """Status change callback."""
